@@ -25,7 +25,7 @@ META = {
     "ready": True,
     "category": "proof",
     "technique": "Lean 4 proof that a faithful model of the equal? worklist (two stacks, pair-keyed visited set, pointer short cuts, one arm per kind, nested == for keys) computes equality of the unfoldings on every acyclic value graph with arbitrary sharing; hash/equality coherence and finite-map/set/sequence laws as theorems; model tied to /repo by a translator (configuration table) and by running the real code on generated value graphs (DAGs with shared nodes in every position) and collection operation sequences",
-    "level_text": "Theorem eq_structural (SteelVerif/C11/Props.lean): for every acyclic value graph - leaves of every modelled kind, lists, pairs, immutable and mutable vectors, structs, boxes, hash maps and hash sets with arbitrary nesting and arbitrary sharing - the model of RecursiveEqualityHandler (as configured by the code that exists: GenSound.code_cfg_sound) returns exactly equality of the unfoldings; corollaries eq_refl, keys_interchangeable, eq_symm/eq_trans (values without hash maps/sets); hash_respects_eq (equal unfoldings hash alike, incl. order-independent map/set hashing and the two vector kinds); laws of hash-insert/ref/remove/contains/length, hashset, list/vector/string/bytevector indexing incl. boundary indices => error for all inputs. The legacy algorithm (visited keyed by single identities) is kept as Cfg.legacy with not_eq_structural_old / not_hash_respects_eq_old by decide, the list short cut without the next-pointer conjunct (K11j) as Cfg.k11j with not_eq_structural_k11j. The model is tied to crates/steel-core/src/rvals/cycles.rs and rvals.rs on every run by translate/c11_cfg.py and by evaluating the real equal?/==/Hash/hash-contains? on the same graphs.",
+    "level_text": "Theorem eq_structural (SteelVerif/C11/Props.lean): for every acyclic value graph - leaves of every modelled kind, lists, pairs, immutable and mutable vectors, structs, boxes, hash maps and hash sets with arbitrary nesting and arbitrary sharing - the model of RecursiveEqualityHandler (as configured by the code that exists: GenSound.code_cfg_sound) returns exactly equality of the unfoldings; corollaries eq_refl, keys_interchangeable, eq_symm_partial/eq_trans_partial (ONLY values without hash maps/sets: symmetry and transitivity through hash maps and hash sets are not proved); hash_respects_eq (equal unfoldings hash alike, incl. order-independent map/set hashing and the two vector kinds); laws of hash-insert/ref/remove/contains/length, hashset, list/vector/string/bytevector indexing incl. boundary indices => error for all inputs (these are laws of the reference models of the collections; there is no Lean model of the Rust collection primitives, they are tied in by the correspondence only; the clauses no theorem carries are listed at the end of Props.lean). The legacy algorithm (visited keyed by single identities) is kept as Cfg.legacy with not_eq_structural_old / not_hash_respects_eq_old by decide, the list short cut without the next-pointer conjunct (K11j) as Cfg.k11j with not_eq_structural_k11j. The model is tied to crates/steel-core/src/rvals/cycles.rs and rvals.rs on every run by translate/c11_cfg.py and by evaluating the real equal?/==/Hash/hash-contains? on the same graphs.",
     "level_note": "Assumed about list identities (guard ListSigOK, checked by the run on every graph the harness builds, not proved about im-lists): a node id of the model = the pointer of a list's head cell (two real lists are one node exactly when as_ptr_usize() agrees), and two lists whose first nodes have the same element storage, the same index and the same next node have the same elements. Trusted: Lean kernel (propext, Classical.choice, Quot.sound only), the translator's regexes, harness/driver/comparison. Documented semantics outside the statement: a NaN is not equal? to itself (guard NoNaN), 1 and 1.0 differ. Not proved: symmetry/transitivity of equal? through hash maps and hash sets (tested only: both query orders). Not modelled: accidental 64-bit hash collisions, cyclic values built by mutation (C18), value kinds other than the ones of Model.Leaf/Node (closures, ports, streams, complex numbers: compared by corpus cases only), im/imbl collections themselves (represented by finite maps/sets).",
 }
 
